@@ -133,6 +133,12 @@ func NodeOf(t reflect.Type, seen map[reflect.Type]bool) *Node {
 			tag := f.Tag.Get("config")
 			parts := strings.Split(tag, ",")
 			fl := Field{GoName: f.Name, Key: f.Name, Validate: f.Tag.Get("validate")}
+			if c := ctorConstraint(t, f); c != "" {
+				if fl.Validate != "" {
+					fl.Validate += ","
+				}
+				fl.Validate += c
+			}
 			if parts[0] != "" {
 				fl.Key = parts[0]
 			}
@@ -231,4 +237,18 @@ func Dump(n *Node, ind string, b *strings.Builder) {
 	default:
 		fmt.Fprintf(b, "%s [%s]\n", n.Kind, n.GoType)
 	}
+}
+
+// ctorConstraint: documented constraints of an option that no validate tag carries because the component's
+// constructor enforces them (it runs inside plugin.New while the component's section is decoded). They travel with
+// the validate tags as pseudo tags `ctor-...`; the model keeps them apart from what validator.v9 checks.
+//
+//	ctor-headers   components/providers/http/config.Config.Headers: a list of "[Name: value]" lines
+//	               (decoders.NewDecoder -> util.DecodeHTTPConfigHeaders), docs/eng/providers.md, docs/eng/config.md
+func ctorConstraint(t reflect.Type, f reflect.StructField) string {
+	if t.PkgPath() == "github.com/yandex/pandora/components/providers/http/config" && t.Name() == "Config" &&
+		f.Name == "Headers" && f.Type.Kind() == reflect.Slice && f.Type.Elem().Kind() == reflect.String {
+		return "ctor-headers"
+	}
+	return ""
 }
